@@ -16,7 +16,7 @@ META = dict(
     level_note="Slope by least squares over lambda values whose difference exceeds a 1e-13 relative floor (three smallest lambda used: the asymptotic slope); >=3 usable points else inconclusive; required slope n-0.3. QED is held only to the xif=1 bitwise statement (the a_s^n scaling statement is formulated for the QCD order).",
     rule="case = (configuration, sector label, scheme) for slopes, (configuration, scheme) for xif=1 identity; non-trivial = xif != 1 with >=3 points above the noise floor, or an xif=1 pair with real evolution",
     min_nontrivial=20,
-    required_hits=["slopes_fitted", "xif1_bitwise_compared", "kernel_evaluations"],
+    required_hits=["slopes_fitted", "xif1_bitwise_compared", "kernel_evaluations", "path_slopes_fitted"],
     max_inconclusive_frac=0.15,
 )
 
@@ -168,9 +168,56 @@ def xif1_case(cfg):
     return dict(status="ok", base=base, sv=out)
 
 
+PATH_LAMS = {1: [1 / 8, 1 / 16, 1 / 32, 1 / 64], 2: [1 / 8, 1 / 16, 1 / 32, 1 / 64], 3: [1 / 4, 1 / 8, 1 / 16, 1 / 32]}
+
+
+def path_case(cfg):
+    """Whole paths across a matching scale (evolution segments, matching operator, couplings through the
+    threshold): the runner's own solve at fixed Mellin N (C50's captured plumbing), scale-varied vs central,
+    applied to light-parton input moments; the difference must fall like lambda^n."""
+    from . import c50
+
+    n = cfg["qcd"]
+    lams = PATH_LAMS[n]
+    rng = np.random.default_rng(cfg["_seed"])
+    f = rng.normal(size=14) + 1j * rng.normal(size=14)
+    f[c50.PIDS.index(22)] = 0.0
+    for q in range(cfg["_hq"], 7):
+        f[c50.PIDS.index(q)] = f[c50.PIDS.index(-q)] = 0.0
+    heavy = np.array([cfg["_hq"] <= abs(p) <= 6 for p in c50.PIDS])
+    base = c50.strip(cfg)
+    recs, nruns = [], 0
+    try:
+        for N in c50.NVALS[: cfg["_nN"]]:
+            pts = {sv: [] for sv in ("expanded", "exponentiated")}
+            for lam in lams:
+                c0 = dict(base, alphas=cfg["alphas"] * lam, scvar=None, xif=1.0)
+                (k0, o0), = c50.nspace_operator(c0, N).items()
+                nruns += 1
+                ref = o0 @ f
+                scale = max(float(np.abs(ref).max()), 1e-300)
+                for sv in pts:
+                    (k1, o1), = c50.nspace_operator(dict(c0, scvar=sv, xif=cfg["xif"]), N).items()
+                    nruns += 1
+                    d = np.abs(o1 @ f - ref)
+                    pts[sv].append((lam, float(d[~heavy].max() / scale), float(d[heavy].max() / scale)))
+            for sv, pp in pts.items():
+                recs.append(dict(N=[N.real, N.imag], scheme=sv, group="light-out", pts=[(l, a) for l, a, b in pp]))
+                recs.append(dict(N=[N.real, N.imag], scheme=sv, group="heavy-out", pts=[(l, b) for l, a, b in pp]))
+    except (NotImplementedError, ValueError) as e:
+        return dict(status="refused", msg=f"{type(e).__name__}: {str(e)[:100]}")
+    except Exception as e:
+        import traceback
+
+        return dict(status="crash", msg=f"{type(e).__name__}: {str(e)[:200]}", tb=traceback.format_exc()[-700:])
+    return dict(status="ok", recs=recs, nruns=nruns)
+
+
 def job(j):
     kind, cfg = j
     c = {k: v for k, v in cfg.items()}
+    if kind == "path":
+        return path_case(c)
     return slope_case(c) if kind == "slope" else xif1_case({k: v for k, v in c.items() if not k.startswith("_")})
 
 
@@ -202,6 +249,23 @@ def make_jobs(ck):
                 # converged kernels, as the statement is about the perturbative order
                 cfg["iters"] = int(rng.integers(48, 80))
             js.append(("slope", cfg))
+    # whole paths across a matching scale placed away from the quark mass
+    from . import c50
+
+    planp = [(2, 1), (3, 2)] if ck.quick else [(1, 4), (2, 12), (3, 12)]
+    for qcd, cnt in planp:
+        for i in range(cnt):
+            pt = "unpol" if (ck.quick or rng.random() < 0.7) else str(rng.choice(["pol", "tl"]))
+            if pt == "tl" and qcd == 3:
+                pt = "unpol"
+            c = c50.make_cfg(rng, qcd, pt, "up", method=str(rng.choice(["truncated", "iterate-exact", "iterate-expanded"])))
+            k = c["_ratios_a"][c["_hq"] - 4]
+            if k == 1.0:
+                c["_ratios_a"], c["_ratios_b"] = c["_ratios_b"], c["_ratios_a"]
+            c["ratios"] = c["_ratios_a"]
+            c["xif"] = float(rng.choice([0.5, 2.0, 0.7, 1.6]))
+            c["_nN"] = 1 if ck.quick else 2
+            js.append(("path", c))
     # xif = 1 identity on stored operators
     plan1 = [(1, 0, 3), (2, 0, 2), (1, 1, 1)] if ck.quick else [(1, 0, 30), (2, 0, 30), (3, 0, 12), (1, 1, 6), (2, 1, 4), (1, 2, 3)]
     for qcd, qed, cnt in plan1:
@@ -237,6 +301,26 @@ def run(ck):
                 ck.case((kind, ckey, sv), nontrivial=moved, sample=dict(kind="xif=1", order=[cfg["qcd"], cfg["qed"]], scheme=sv, equal=dg == res["base"]))
                 if dg != res["base"]:
                     ck.violation(f"C51/xif1/{sv}/{'qed' if cfg['qed'] else 'qcd'}", f"scheme {sv} with xif=1 does not reproduce the unvaried operator bitwise", dict(kind=kind, cfg=cfg, base=res["base"], got=dg))
+                else:
+                    ck.ok()
+            continue
+        if kind == "path":
+            n = cfg["qcd"]
+            ck.hit("path_solves", res["nruns"])
+            for rec in res["recs"]:
+                sl, npts = fit(rec["pts"])
+                key = (kind, ckey, rec["scheme"], rec["group"], tuple(rec["N"]))
+                if sl is None:
+                    ck.case(key, nontrivial=False)
+                    if rec["group"] == "light-out" and all(d == 0.0 for _, d in rec["pts"]):
+                        ck.violation(f"C51/path/no-variation/{rec['scheme']}", "scale-varied path operator identical to the central one although xif != 1", dict(kind=kind, cfg=cfg, rec=rec))
+                    else:
+                        ck.ok()  # e.g. heavy output exactly untouched: nothing to measure
+                    continue
+                ck.hit("path_slopes_fitted")
+                ck.case(key, nontrivial=True, sample=dict(kind="path", order=n, method=cfg["method"], pt=cfg["pt"], init=cfg["init"], target=cfg["targets"][0], ratios=cfg["ratios"], xif=cfg["xif"], scheme=rec["scheme"], group=rec["group"], slope=sl, pts=rec["pts"]))
+                if sl < n - 0.3:
+                    ck.violation(f"C51/path/slope/{rec['scheme']}/{rec['group']}/order{n}/{cfg['pt']}", f"across a matching scale the scale-varied result differs from the central one like lambda^{sl:.2f} < a_s^{n} ({rec['group']}, N={rec['N']}, method {cfg['method']})", dict(kind=kind, cfg=cfg, rec=rec))
                 else:
                     ck.ok()
             continue
